@@ -1351,7 +1351,23 @@ class AggregateBase(UnitsManaged, Saveable, OpenSystem):
 
         """
         manager = Manager()
+        # the build works in internal units; the units which are active for
+        # the caller are put back when the build returns or fails
+        units_backup = manager.get_current_units("energy")
         manager.set_current_units("energy", "int")
+        try:
+            self._build(mult, sbi_for_higher_ex, vibgen_approx, Nvib,
+                        vibenergy_cutoff, fem_full, el_blocks)
+        finally:
+            manager.set_current_units("energy", units_backup)
+
+
+    def _build(self, mult, sbi_for_higher_ex, vibgen_approx, Nvib,
+               vibenergy_cutoff, fem_full, el_blocks):
+        """Body of the `build` method; runs in internal units
+
+        """
+        manager = Manager()
 
         # maximum multiplicity of excitons handled by this aggregate
         self.mult = mult
@@ -1724,8 +1740,6 @@ class AggregateBase(UnitsManaged, Saveable, OpenSystem):
             pass
 
         self._built = True
-
-        manager.unset_current_units("energy")
 
 
     def rebuild(self, mult=1, sbi_for_higher_ex=False,
